@@ -371,6 +371,19 @@ func (p *TxProcessor) applyTx(gp *types.GasPool, header *types.Header, tx *types
 		gasUsed              uint64
 	)
 
+	// The end-of-block pass (ChangeVotesByBalance) applies the sender's balance change over the whole
+	// block to the candidate it votes for at that time. So the votes a vote transaction moves must be
+	// the ones of the sender's balance at the start of the block, not of what earlier transactions in
+	// this block left of it.
+	for _, l := range p.am.GetChangeLogs() {
+		if l.LogType == account.BalanceLog && l.Address == senderAddr {
+			if old, ok := l.OldVal.(big.Int); ok {
+				initialSenderBalance = new(big.Int).Set(&old)
+			}
+			break
+		}
+	}
+
 	restGas, err = p.buyAndPayIntrinsicGas(gp, tx, restGas)
 	if err != nil {
 		log.Warn("buyAndPayIntrinsicGas fail", "error", err.Error())
